@@ -14,7 +14,10 @@ TRUSTED = [
     "translator/c12.py (constructor and setter guards of Geometry/Characteristics/Environment/APDCharacteristics -> "
     "Gen_C12.src_guards; count checks of _build_configuration and Configuration.__post_init__ -> src_checks; "
     "shape checks of the to_* builders and the dispatch chain; fails closed on any other shape)",
-    "the LITERAL table Model.Config.documented (documented ranges, from the property text, docstrings, error messages)",
+    "the LITERAL table Model.Config.documented (documented ranges, from the property text, docstrings, error messages) "
+    "and Model.Config.readout_settings",
+    "translator/c12.py on pyxel/exposure/readout.py: constructor parameters of Readout and the settings Readout.replace "
+    "carries over (Gen_C12.src_readout_params, src_replace_carried)",
     "correspondence harness: harness/props/c12.py generators, harness/drivers/c12.py (values as exact rationals), "
     "the defaults table DEFAULTS in harness/props/c12.py (what an absent key means)",
     "modelled, not verified: PyYAML parsing, numpy.arange (its value list is re-derived as a + i*s, ceil((b-a)/s) "
@@ -23,7 +26,9 @@ TRUSTED = [
 
 CLS = {"Geometry": "CGeometry", "Characteristics": "CCharacteristics", "Environment": "CEnvironment",
        "APDCharacteristics": "CAPDCharacteristics"}
-PATH = {"ctor": "PCtor", "yaml": "PYaml", "attr": "PAttr", "sweep": "PSweep"}
+# "obsrun": the value is one point of a REAL observation (pyxel.run_mode on an Observation that sweeps the field,
+# sequentially or with dask); accepted = the run completes.  It is the sweep path of the model.
+PATH = {"ctor": "PCtor", "yaml": "PYaml", "attr": "PAttr", "sweep": "PSweep", "obsrun": "PSweep"}
 
 # used ONLY to aim the generator and to classify a failing value; the decision is taken inside Coq against
 # Model.Config.documented.  (cls, field, lo, hi, integer-ish, sequence length)
@@ -58,12 +63,39 @@ def vi(n: int):
 
 
 NAN, NONE = {"t": "nan"}, {"t": "none"}
+PINF, NINF = {"t": "inf", "pos": True}, {"t": "inf", "pos": False}
+
+
+def npi(n: int, dt="int64"):
+    """a number carried by a numpy integer scalar (not an instance of int | float)"""
+    return {"t": "npint", "v": int(n), "dt": dt}
+
+
+def npf(x: float, dt="float32"):
+    """a number carried by a numpy float scalar; float64 IS a python float (subclass), float32 is not"""
+    return {"t": "npfloat", "v": float(x).hex(), "dt": dt}
+
+
+def npnan(dt="float32"):
+    return {"t": "npnan", "dt": dt}
+
+
+def exact_f32(x: float) -> bool:
+    import struct
+    try:
+        return struct.unpack("f", struct.pack("f", x))[0] == x
+    except OverflowError:
+        return False
+
+
+def is_np_carrier(x) -> bool:
+    return x["t"] in ("npint", "npfloat", "npnan") and x.get("dt") != "float64"
 
 
 def value_q(x):
-    if x["t"] == "int":
+    if x["t"] in ("int", "npint"):
         return Fraction(x["v"])
-    if x["t"] == "float":
+    if x["t"] in ("float", "npfloat"):
         return Fraction(float.fromhex(x["v"]))
     return None
 
@@ -76,8 +108,37 @@ def cvalue(x) -> str:
         return "VNaN"
     if t == "seq":
         return f"(VSeq {x['n']}%nat)"
+    if t == "inf":
+        return f"(VInf {core.cbool(x['pos'])})"
+    if t == "npnan":
+        return "VNpNaN" if is_np_carrier(x) else "VNaN"
     q = value_q(x)
-    return f"(VNum {core.cq(q.numerator, q.denominator)})"
+    ctor = "VNpNum" if is_np_carrier(x) else "VNum"
+    return f"({ctor} {core.cq(q.numerator, q.denominator)})"
+
+
+def np_values(r, lo, hi, seqlen, small):
+    """the same numbers carried by numpy scalars, and +-inf"""
+    idt = lambda: r.choice(["int64", "int32", "int64"])
+    if seqlen is not None:
+        return [npi(0, idt()), npi(2, idt()), npf(5.0), npf(0.0), npnan(), npf(2.0, "float64"), PINF]
+    if small:
+        return [npi(-1, idt()), npi(0, idt()), npi(3, idt()), npi(r.randrange(1, 9), idt()), npnan(), PINF, NINF]
+    vs = [npnan(), npnan("float64"), PINF, NINF, npi(0, idt()), npf(0.0)]
+    for b in [b for b in (lo, hi) if b is not None]:
+        vs += [npi(b, idt()), npi(b - 1, idt()), npi(b + 1, idt())]
+        for f in (b - 0.5, b + 0.5, b + 0.25):
+            if exact_f32(f):
+                vs.append(npf(f))
+        vs.append(npf(b + 0.5, "float64"))
+    if hi is not None:
+        mid = (lo + hi) // 2 if hi - lo >= 2 else None
+        if mid is not None:
+            vs += [npi(mid, idt())]
+        vs += [npf((lo + hi) / 2), npi(10 * hi + 7, idt()), npi(lo - 5, idt())]
+    else:
+        vs += [npi(lo + 7, idt()), npf(lo + 2.5), npi(lo - 5, idt())]
+    return vs
 
 
 def gen_values(r, lo, hi, integer, seqlen, small, n_random):
@@ -111,9 +172,21 @@ def gen_values(r, lo, hi, integer, seqlen, small, n_random):
     return vs
 
 
-def gen_guard_cases(ctx: Ctx, n_random: int):
+def corpus_guard_cases():
+    """the formerly failing inputs of the repaired findings (harness/corpus/C12), run first on every run"""
+    out = []
+    d = core.VERIF / "harness" / "corpus" / "C12"
+    for f in sorted(d.glob("*.json")) if d.exists() else []:
+        for c in json.loads(f.read_text()).get("cases", []):
+            if c.get("k") == "guard":
+                out.append({k: c[k] for k in ("k", "cls", "field", "path", "det", "x")})
+    return out
+
+
+def gen_guard_cases(ctx: Ctx, n_random: int, n_obsrun: int = 6):
     r = ctx.rng("guards")
-    cases = []
+    cases = corpus_guard_cases()
+    ctx.cov["corpus_cases"] = len(cases)
     for cls, field, lo, hi, integer, seqlen in FIELDS:
         small = field in ("row", "col")
         for path in ("ctor", "yaml", "attr", "sweep"):
@@ -127,9 +200,29 @@ def gen_guard_cases(ctx: Ctx, n_random: int):
                 seen.add(key)
                 if path == "sweep" and x["t"] == "none":
                     continue  # Processor.set has no notion of None (TypeError before any setter)
-                if path == "yaml" and small and x["t"] == "nan":
-                    continue  # refused later by the frame allocation, not by the guard that is modelled here
+                if path == "yaml" and small and x["t"] == "inf":
+                    continue  # accepted by the guard (an extended real > 0), refused later by the frame allocation
                 cases.append(dict(k="guard", cls=cls, field=field, path=path, det=r.choice(dets), x=x))
+            for x in np_values(r, lo, hi, seqlen, small):
+                key = json.dumps(x, sort_keys=True)
+                if key in seen:
+                    continue
+                seen.add(key)
+                if path == "yaml" and (x["t"] != "inf" or small):
+                    continue  # a YAML document cannot carry a numpy scalar
+                cases.append(dict(k="guard", cls=cls, field=field, path=path, det=r.choice(dets), x=x))
+        # real observation runs over the field: a few values per field, sequential and dask
+        plain_vals = [x for x in gen_values(r, lo, hi, integer, seqlen, small, 2)
+                      if x["t"] in ("int", "float", "nan") or (x["t"] == "seq" and seqlen is not None)]
+        if seqlen is not None:
+            plain_vals = [x for x in plain_vals if x["t"] == "seq"]
+        uniq = {json.dumps(x, sort_keys=True): x for x in plain_vals}
+        pick = r.sample(sorted(uniq), min(n_obsrun, len(uniq)))
+        if seqlen is None and json.dumps(NAN, sort_keys=True) not in pick:
+            pick.append(json.dumps(NAN, sort_keys=True))
+        for i, key in enumerate(pick):
+            cases.append(dict(k="guard", cls=cls, field=field, path="obsrun", det=r.choice(dets), x=uniq[key],
+                              dask=bool(i % 2)))
     return cases
 
 
@@ -140,10 +233,16 @@ def classify_value(c):
     t = x["t"]
     if t in ("nan", "none"):
         return t
+    if t == "npnan":
+        return "nan"
     if seqlen is not None:
         if t == "seq":
             return "sequence" if x["n"] else "empty-sequence"
+        if t == "inf":
+            return "number"
         return "number" if value_q(x) != 0 else "zero-number"
+    if t == "inf":
+        return "above" if x["pos"] else "below"
     q = value_q(x)
     if q == 0 and lo > 0:
         return "zero"
@@ -174,7 +273,7 @@ def guard_violation(c, o) -> Violation:
     what = (f"{c['cls']}.{c['field']} via {c['path']}: value {show_value(c['x'])} ({kind}) is "
             f"{'accepted' if acc else 'refused'}, the documented range says the opposite")
     sig = dict(clause="same_limits", field=f"{c['cls']}.{c['field']}", path=c["path"], value=kind,
-               outcome="accepted" if acc else "refused")
+               outcome="accepted" if acc else "refused", carrier="numpy" if is_np_carrier(c["x"]) else "python")
     return Violation(clause="same_limits", case=c, observed=o,
                      expected="accepted iff inside the documented range (None: iff the field is optional)",
                      what=what, sig=sig)
@@ -188,6 +287,14 @@ def show_value(x):
         return str(x["v"])
     if t == "seq":
         return f"sequence of {x['n']}"
+    if t == "inf":
+        return "inf" if x["pos"] else "-inf"
+    if t == "npint":
+        return f"numpy.{x['dt']}({x['v']})"
+    if t == "npfloat":
+        return f"numpy.{x['dt']}({float.fromhex(x['v'])!r})"
+    if t == "npnan":
+        return f"numpy.{x['dt']}('nan')"
     return t
 
 
@@ -246,6 +353,13 @@ def dy(r, lo, hi, k=3):
     return r.randrange(int(lo * 2 ** k), int(hi * 2 ** k) + 1) / 2 ** k
 
 
+class TimesFile:
+    """readout times given through a file: the document holds the file name, the times are the file's content"""
+
+    def __init__(self, values, name):
+        self.values, self.name = list(values), name
+
+
 class Expr:
     """a range expression written as text in the document"""
 
@@ -285,8 +399,16 @@ def gen_readout(r):
     ro = {}
     t = gen_times(r)
     first = t[0] if isinstance(t, list) else (float(t.a) if isinstance(t, Expr) else float(t))
-    if r.random() < 0.85:
+    k = r.random()
+    if k < 0.75:
         ro["times"] = t
+    elif k < 0.87:
+        t0 = dy(r, 0.5, 3)
+        ts = [t0]
+        for _ in range(r.randrange(0, 4)):
+            ts.append(ts[-1] + dy(r, 0.25, 4))
+        ro["times_from_file"] = TimesFile(ts, "c12_times_%d.npy" % r.randrange(10 ** 6))
+        first = t0
     else:
         first = 1.0
     if r.random() < 0.5:
@@ -329,6 +451,16 @@ def gen_pipeline(r, runnable):
             if r.random() < 0.5:
                 models.reverse()
         p[g] = models
+    if not runnable:
+        # the groups no real model of the sample belongs to: probe models (a document that is only loaded)
+        for g in ("scene_generation", "phasing", "charge_transfer", "signal_transfer", "data_processing"):
+            k = r.random()
+            if k < 0.25:
+                p[g] = [{"name": f"{g}_probe{i}", "func": "verif_probes.record", "enabled": r.random() < 0.6,
+                         "arguments": {"tag": r.choice(["s", "t"]), "with_clock": r.random() < 0.5}}
+                        for i in range(r.randrange(1, 3))]
+            elif k < 0.35:
+                p[g] = None
     if r.random() < 0.5:
         items = list(p.items())
         r.shuffle(items)        # group order in the file must not matter
@@ -411,6 +543,48 @@ def gen_param(r, calibration):
     return p
 
 
+BUCKETS = ["detector.photon.array", "detector.charge.array", "detector.pixel.array", "detector.signal.array",
+           "detector.image.array"]
+FORMATS = ["fits", "npy", "txt", "csv", "png", "jpg"]
+DATA_KEY = {"exposure": "save_exposure_data", "observation": "save_observation_data",
+            "calibration": "save_calibration_data"}
+
+# constructor defaults of pyxel.calibration.Algorithm as documented (stopval is left out: None is stored as -inf)
+ALGO_DEFAULTS = dict(type="sade", generations=1, population_size=1, variant=2, variant_adptv=1, ftol=1e-06, xtol=1e-06,
+                     memory=False, cr=0.9, eta_c=1.0, m=0.02, param_m=1.0, param_s=2, crossover="exponential",
+                     mutation="polynomial", selection="tournament", nlopt_solver="neldermead", maxtime=0, maxeval=0,
+                     xtol_rel=1e-08, xtol_abs=0.0, ftol_rel=0.0, ftol_abs=0.0, replacement="best",
+                     nlopt_selection="best")
+
+
+def gen_outputs(r, kind):
+    o = {"output_folder": r.choice(["c12_out", "c12_out/sub", "out_" + str(r.randrange(9))])}
+    if r.random() < 0.5:
+        o["custom_dir_name"] = r.choice(["run_", "c12_", "x"])
+    if r.random() < 0.6:
+        names = r.sample(BUCKETS, r.randrange(1, 4))
+        o["save_data_to_file"] = [{n: r.sample(FORMATS, r.randrange(1, 3))} for n in names]
+    if r.random() < 0.3:
+        o[DATA_KEY[kind]] = [{"dataset": ["nc"]}] if kind != "calibration" else [{"dataset": ["nc"]}, {"logs": ["csv"]}]
+    return o
+
+
+def gen_algorithm_extras(r):
+    cand = dict(variant_adptv=lambda: r.choice([1, 2]), ftol=lambda: 2.0 ** -r.randrange(10, 30),
+                xtol=lambda: 2.0 ** -r.randrange(10, 30), memory=lambda: r.random() < 0.5, cr=lambda: dy(r, 0, 1),
+                eta_c=lambda: dy(r, 1, 8), m=lambda: dy(r, 0, 1, 5), param_m=lambda: dy(r, 1, 4),
+                param_s=lambda: r.randrange(2, 6), crossover=lambda: r.choice(["single", "exponential", "binomial", "sbx"]),
+                mutation=lambda: r.choice(["uniform", "gaussian", "polynomial"]),
+                selection=lambda: r.choice(["tournament", "truncated"]),
+                nlopt_solver=lambda: r.choice(["cobyla", "bobyqa", "neldermead", "sbplx"]),
+                maxtime=lambda: r.randrange(0, 100), maxeval=lambda: r.randrange(0, 1000),
+                xtol_rel=lambda: 2.0 ** -r.randrange(10, 40), xtol_abs=lambda: dy(r, 0, 1, 6),
+                ftol_rel=lambda: dy(r, 0, 1, 6), ftol_abs=lambda: dy(r, 0, 1, 6), stopval=lambda: dy(r, 0, 10),
+                replacement=lambda: r.choice(["best", "worst", "random"]),
+                nlopt_selection=lambda: r.choice(["best", "worst", "random"]))
+    return {k: f() for k, f in cand.items() if r.random() < 0.3}
+
+
 def gen_mode(r, kind, runnable):
     m = {}
     ro = gen_readout(r)
@@ -418,6 +592,10 @@ def gen_mode(r, kind, runnable):
         m["readout"] = ro
     if r.random() < 0.5:
         m["pipeline_seed"] = r.randrange(0, 10000)
+    if not runnable and r.random() < 0.5:
+        m["outputs"] = gen_outputs(r, kind)
+    if not runnable and kind != "calibration" and r.random() < 0.25 and "times_from_file" not in (ro or {}):
+        m["working_directory"] = r.choice(["c12_wd", "c12_wd/deeper"])
     if kind == "exposure":
         if r.random() < 0.4:
             m["result_type"] = r.choice(["all", "image", "signal", "pixel"])
@@ -431,8 +609,8 @@ def gen_mode(r, kind, runnable):
             m["mode"] = r.choice(["product", "sequential"])
             if m["mode"] == "sequential" and len(m["parameters"]) > 1 and runnable:
                 m["mode"] = "product"
-        if r.random() < 0.3:
-            m["with_dask"] = False
+        if r.random() < 0.5:
+            m["with_dask"] = r.random() < 0.6      # the runnable documents of this stream run sequentially (popped below)
         if r.random() < 0.3:
             m["result_type"] = r.choice(["all", "image"])
     else:
@@ -444,6 +622,21 @@ def gen_mode(r, kind, runnable):
                   "parameters": [gen_param(r, True)]})
         if r.random() < 0.5:
             m["algorithm"]["variant"] = r.randrange(1, 10)
+        m["algorithm"].update(gen_algorithm_extras(r))
+        if r.random() < 0.4:
+            m["fitness_function"] = {"func": "verif_probes_c12.fitness",
+                                     "arguments": r.choice([{}, {"scale": dy(r, 1, 4)},
+                                                            {"scale": dy(r, 1, 4), "offset": r.randrange(5), "tag": "t"}])}
+        if r.random() < 0.3:
+            m["type_islands"] = r.choice(["multiprocessing", "multithreading"])
+        k = r.random()
+        if k < 0.3:
+            m["weights"] = [dy(r, 0.5, 4)]
+        elif k < 0.5:
+            m["weights_from_file"] = ["c12_weights_%d.txt" % r.randrange(3)]
+        if r.random() < 0.3:
+            m["result_input_arguments"] = [{"key": "pipeline.photon_collection.illumination.arguments.level",
+                                            "values": r.choice([[1, 2], [10, 20, 30], Expr(1, r.randrange(3, 6), 1)])}]
         for k, f in (("mode", lambda: r.choice(["pipeline", "single_model"])),
                      ("result_type", lambda: r.choice(["image", "signal", "pixel"])),
                      ("result_fit_range", lambda: [0, 2, 0, 3]), ("target_fit_range", lambda: [0, 2, 0, 3]),
@@ -467,19 +660,40 @@ def gen_settings_cases(ctx: Ctx, n: int, n_run: int):
         sec = gen_detector(r, det)
         if runnable:
             sec = complete_for_run(det, sec, r)
+        ch = sec.get("characteristics") or {}
+        if not runnable and ch.get("adc_voltage_range") and r.random() < 0.3:
+            ch["adc_voltage_range"] = list(reversed(ch["adc_voltage_range"]))   # the file's order is the setting
         doc = {kind: gen_mode(r, kind, runnable), det + "_detector": sec, "pipeline": gen_pipeline(r, runnable)}
         if runnable and kind == "observation":
             doc[kind].pop("with_dask", None)
         items = list(doc.items())
         r.shuffle(items)
-        cases.append(dict(k="settings", doc=dict(items), run=bool(runnable), det=det, kind=kind))
+        case = dict(k="settings", doc=dict(items), run=bool(runnable), det=det, kind=kind)
+        case["derive"] = gen_derive_ops(r, case)
+        case["sweeps"] = gen_sweep_ops(r, case)
+        cases.append(case)
     return cases
+
+
+def collect_files(doc):
+    out = {}
+    if isinstance(doc, TimesFile):
+        out[doc.name] = doc.values
+    elif isinstance(doc, dict):
+        for v in doc.values():
+            out.update(collect_files(v))
+    elif isinstance(doc, list):
+        for v in doc:
+            out.update(collect_files(v))
+    return out
 
 
 def to_yaml_doc(doc):
     """replace Expr objects by their text"""
     if isinstance(doc, Expr):
         return doc.text()
+    if isinstance(doc, TimesFile):
+        return doc.name
     if isinstance(doc, dict):
         return {k: to_yaml_doc(v) for k, v in doc.items()}
     if isinstance(doc, list):
@@ -509,22 +723,41 @@ def flatten(case):
     m = doc[kind] or {}
     ent.append(("mode.kind", kind))
     for k, v in (m.get("readout") or {}).items():
-        ent.append((f"mode.readout.{k}", v))
+        if k == "times_from_file":
+            ent.append(("mode.readout.times", list(v.values)))     # the setting is the content of the file
+        else:
+            ent.append((f"mode.readout.{k}", v))
     dfl += [("mode.readout.times", [1]), ("mode.readout.start_time", 0), ("mode.readout.non_destructive", False),
-            ("mode.pipeline_seed", None), ("mode.result_type", "image" if kind == "calibration" else "all")]
+            ("mode.pipeline_seed", None), ("mode.result_type", "image" if kind == "calibration" else "all"),
+            ("mode.working_directory", None)]
+    if "outputs" in m:
+        o = m["outputs"]
+        ent.append(("mode.outputs.present", True))
+        for kk, vv in o.items():
+            ent.append((f"mode.outputs.{kk}", canon_save(vv) if kk.startswith("save_") else vv))
+        dfl += [("mode.outputs.custom_dir_name", ""), ("mode.outputs.save_data_to_file", [["detector.image.array", ["fits"]]]),
+                (f"mode.outputs.{DATA_KEY[kind]}", None)]
+    else:
+        dfl.append(("mode.outputs.present", False))
     for k, v in m.items():
-        if k in ("readout",):
+        if k in ("readout", "outputs"):
             continue
-        if k == "parameters":
-            ent.append(("mode.parameters.count", len(v)))
+        if k in ("parameters", "result_input_arguments"):
+            ent.append((f"mode.{k}.count", len(v)))
             for i, p in enumerate(v):
                 for kk, vv in p.items():
-                    ent.append((f"mode.parameters.{i}.{kk}", vv))
-                dfl += [(f"mode.parameters.{i}.enabled", True), (f"mode.parameters.{i}.logarithmic", False),
-                        (f"mode.parameters.{i}.boundaries", None)]
-        elif k in ("algorithm", "fitness_function"):
+                    ent.append((f"mode.{k}.{i}.{kk}", vv))
+                dfl += [(f"mode.{k}.{i}.enabled", True), (f"mode.{k}.{i}.logarithmic", False),
+                        (f"mode.{k}.{i}.boundaries", None)]
+        elif k == "algorithm":
             for kk, vv in v.items():
                 ent.append((f"mode.{k}.{kk}", vv))
+        elif k == "fitness_function":
+            ent.append(("mode.fitness_function.func", v["func"]))
+            if "arguments" in v:
+                ent.append(("mode.fitness_function.arguments.count", len(v["arguments"])))
+                for a, av in v["arguments"].items():
+                    ent.append((f"mode.fitness_function.arguments.{a}", av))
         elif k == "target_data_path":
             ent.append(("mode.target_data_path", list(v)))
         else:
@@ -534,8 +767,10 @@ def flatten(case):
     if kind == "calibration":
         dfl += [("mode.mode", "pipeline"), ("mode.result_fit_range", []), ("mode.target_fit_range", []),
                 ("mode.num_islands", 1), ("mode.num_evolutions", 1), ("mode.num_best_decisions", None),
-                ("mode.topology", "unconnected"), ("mode.algorithm.type", "sade"), ("mode.algorithm.generations", 1),
-                ("mode.algorithm.population_size", 1), ("mode.algorithm.variant", 2)]
+                ("mode.topology", "unconnected"), ("mode.type_islands", "multiprocessing"), ("mode.weights", None),
+                ("mode.weights_from_file", None), ("mode.result_input_arguments.count", 0),
+                ("mode.fitness_function.arguments.count", None)]
+        dfl += [(f"mode.algorithm.{a}", v) for a, v in ALGO_DEFAULTS.items()]
     p = doc.get("pipeline") or {}
     for g in PIPE_GROUPS:
         if g not in p or p[g] is None:
@@ -556,6 +791,13 @@ def flatten(case):
                     ent.append((f"{pre}.{kk}", vv))
             dfl += [(pre + ".enabled", True), (pre + ".arguments.count", 0)]
     return ent, dfl
+
+
+def canon_save(v):
+    """[{name: [formats]}, ...] -> [[name, [formats]], ...]  (the form the driver reads back)"""
+    if v is None:
+        return None
+    return [[k, list(f)] for d in v for k, f in d.items()]
 
 
 def cleaf(v) -> str:
@@ -620,7 +862,259 @@ def parse_details(text: str):
     return out
 
 
+
+# ------------------------------------------------------------------------------------------ derived readouts
+
+RO_KEYS = ["mode.readout.times", "mode.readout.start_time", "mode.readout.non_destructive"]
+DOP = {"replace": "DReplace", "setter": "DSetter", "copy": "DCopy", "sweep": "DSweep"}
+
+
+def gen_sweep_ops(r, case):
+    """points of a sweep over one detector setting (in-range dyadic values)"""
+    cands = [("detector.environment.temperature", dy(r, 60, 400)), ("detector.geometry.pixel_scale", dy(r, 0.5, 5)),
+             ("detector.geometry.total_thickness", dy(r, 1, 100)),
+             ("detector.characteristics.quantum_efficiency", dy(r, 0.125, 1)),
+             ("detector.characteristics.full_well_capacity", r.randrange(1000, 90000))]
+    if case["det"] != "apd":
+        cands += [("detector.characteristics.pre_amplification", dy(r, 1, 50)),
+                  ("detector.characteristics.adc_bit_resolution", r.randrange(8, 33))]
+    return [dict(key=k, value=v) for k, v in r.sample(cands, 2)]
+
+
+def sweep_rows(c, o):
+    rows = []
+    for op, d in zip(c.get("sweeps") or [], o.get("swept") or []):
+        keys = sorted(d["before"])
+        before = [(k, d["before"][k]) for k in keys]
+        obs = None if "settings" not in d else sorted(d["settings"].items())
+        rows.append((dict(op="sweep", changes={op["key"]: op["value"]}), before, [(op["key"], op["value"])], obs, d))
+        rows.append((dict(op="sweep", changes={}, of=dict(op="sweep", changes={op["key"]: op["value"]})), before, [],
+                     sorted(d["after"].items()), d))
+    return rows
+
+
+def readout_facts(case):
+    """(first readout time, start_time, non_destructive) the document means"""
+    ro = (case["doc"][case["kind"]] or {}).get("readout") or {}
+    t = ro["times_from_file"].values if "times_from_file" in ro else ro.get("times", [1])
+    first = t[0] if isinstance(t, list) else (float(t.a) if isinstance(t, Expr) else float(t))
+    return float(first), float(ro.get("start_time", 0.0)), bool(ro.get("non_destructive", False))
+
+
+def gen_derive_ops(r, case):
+    """derivations of the loaded readout; new times are always valid for the start time that is kept"""
+    first, start, nd = readout_facts(case)
+    base = max(start, 0.0)
+
+    def new_times():
+        a = base + dy(r, 0.25, 3, 2)
+        k = r.random()
+        if k < 0.35:
+            return a
+        ts = [a]
+        for _ in range(r.randrange(0, 3)):
+            ts.append(ts[-1] + dy(r, 0.25, 2, 2))
+        return ts
+
+    s2 = r.choice([first / 2, first / 4, first / 8, 0.0])
+    if s2 == start:
+        s2 = first * 3 / 4
+    ops = [dict(op="replace", changes={"times": new_times()}),
+           dict(op="setter", changes={"times": new_times()}),
+           dict(op="replace", changes={"start_time": s2}),
+           dict(op="replace", changes={"non_destructive": not nd}),
+           dict(op="replace", changes={"times": new_times(), "non_destructive": not nd}),
+           dict(op="setter", changes={"start_time": s2}),
+           dict(op="setter", changes={"non_destructive": not nd}),
+           dict(op="copy", changes={})]
+    return ops
+
+
+def derive_rows(c, o):
+    """[(op, settings of the loaded readout, changes, observed | None)] for one settings case"""
+    rows = []
+    for op, d in zip(c.get("derive") or [], o.get("derived") or []):
+        before = [(k, d["before"][k]) for k in RO_KEYS]
+        ch = []
+        for k, v in op["changes"].items():
+            if k == "times":
+                v = v if isinstance(v, list) else [v]
+            ch.append((f"mode.readout.{k}", v))
+        obs = None if "settings" not in d else [(k, d["settings"][k]) for k in RO_KEYS]
+        rows.append((op, before, ch, obs, d))
+        # the loaded readout itself must not change under a derivation
+        rows.append((dict(op="copy", changes={}, of=op), before, [], [(k, d["after"][k]) for k in RO_KEYS], d))
+    return rows
+
+
+def emit_derive_file(rows) -> str:
+    out = []
+    for op, before, ch, obs, _ in rows:
+        o = "None" if obs is None else f"(Some {centries(obs)})"
+        out.append(f"DCase {DOP[op['op']]} {centries(before)}\n    {centries(ch)}\n    {o}")
+    body = ";\n  ".join(out)
+    return (HEAD + "Open Scope string_scope.\n" + f"Definition cases : list dcase := [\n  {body}\n].\n"
+            "Eval vm_compute in d_mismatches src_replace_carried cases.\nEval vm_compute in d_violations cases.\n")
+
+
+def plain(v):
+    """message-only normal form of a leaf ({'f': hex} -> float)"""
+    if isinstance(v, dict) and set(v) == {"f"}:
+        return float.fromhex(v["f"])
+    if isinstance(v, (list, tuple)):
+        return [plain(e) for e in v]
+    if isinstance(v, bool) or v is None or isinstance(v, str):
+        return v
+    return float(v)
+
+
+def derive_violation(c, row) -> Violation:
+    op, before, ch, obs, d = row
+    of = op.get("of")
+    changed = sorted(k for k, _ in ch)
+    if of is not None:
+        what = (f"{c['det']}/{c['kind']}: {of['op']}({of['changes']}) on the loaded readout changed the loaded readout "
+                f"itself: before {dict(before)}, after {dict(obs)}")
+        sig = dict(clause="derived_keeps", op=of["op"], aspect="original-modified")
+    elif obs is None:
+        what = (f"{c['det']}/{c['kind']}: readout.{op['op']}({op['changes']}) on the loaded readout {dict(before)} raised "
+                f"{d.get('raised')}: {d.get('msg')}")
+        sig = dict(clause="derived_keeps", op=op["op"], changed=changed, aspect="valid-change-refused")
+    else:
+        want = dict(before)
+        want.update(dict(ch))
+        differs = sorted(k for k in want if plain(dict(obs).get(k, "<missing>")) != plain(want[k]))
+        what = (f"{c['det']}/{c['kind']}: {op['op']}({op['changes']}) on the loaded "
+                f"{'detector' if op['op'] == 'sweep' else 'readout'} "
+                f"{ {k: plain(v) for k, v in before if k in differs or op['op'] != 'sweep'} } gives "
+                f"{ {k: plain(v) for k, v in obs if k in differs or op['op'] != 'sweep'} }: {differs} differ from "
+                f"<unchanged settings kept, changed settings set>")
+        sig = dict(clause="derived_keeps", op=op["op"], changed=changed, aspect="setting-lost")
+    only = dict(derive=[of or op], sweeps=None) if (of or op)["op"] != "sweep" else \
+        dict(derive=None, sweeps=[dict(key=k, value=v) for k, v in (of or op)["changes"].items()])
+    return Violation(clause="derived_keeps", case=dict(jcase(c), **only), observed=d,
+                     expected="a derived readout keeps every setting that was not changed and has the new value of "
+                              "the changed ones; the loaded readout is left alone",
+                     what=what, sig=sig)
+
+
+def run_derived(ctx: Ctx, pairs, tag="d"):
+    rows = []
+    for c, o in pairs:
+        for row in derive_rows(c, o) + sweep_rows(c, o):
+            rows.append((c, row))
+    if not rows:
+        return [], []
+    per = 200
+    files = {f"{tag}_{k // per:03d}": emit_derive_file([r for _, r in rows[k:k + per]]) for k in range(0, len(rows), per)}
+    ev = eval_files(ctx, files)
+    mism, viol = [], []
+    for k, name in enumerate(sorted(files)):
+        if ev[name] is None:
+            continue
+        chunk = rows[k * per:(k + 1) * per]
+        mism += [chunk[i] for i in core.parse_int_list(ev[name][0])]
+        viol += [chunk[i] for i in core.parse_int_list(ev[name][1])]
+    for c, row in rows:
+        if row[0].get("of") is None:
+            ctx.count("evaluations")
+            ctx.count("derived_readouts")
+            ctx.dist("derive_op", row[0]["op"] + "(" + ",".join(sorted(row[0]["changes"])) + ")")
+            ctx.dist("derive_outcome", "raised" if row[3] is None else "derived")
+    return mism, viol
+
+
+# ------------------------------------------------------------------------------------------ sweep over the readout times
+
+
+def gen_sweep_cases(ctx: Ctx, n: int):
+    """observations that sweep 'observation.readout.times' with readout settings other than the defaults"""
+    r = ctx.rng("sweep")
+    cases = []
+    dets = ["ccd", "cmos", "mkid", "apd"]
+    r.shuffle(dets)
+    for i in range(n):
+        det = dets[i % 4]
+        sec = complete_for_run(det, gen_detector(r, det), r)
+        sec["characteristics"]["quantum_efficiency"] = 1.0
+        t0 = dy(r, 1, 3, 2)
+        start = r.choice([t0 / 2, t0 / 4, 0.125, 0.5])
+        vals, t = [], start
+        for _ in range(r.randrange(2, 4)):
+            t = t + dy(r, 0.25, 2, 2)
+            vals.append(t)
+        ro = {"times": [t0], "start_time": start}
+        if r.random() < 0.5:
+            ro["non_destructive"] = r.random() < 0.5
+        obs = {"with_dask": True if i % 3 != 2 else False, "readout": ro,
+               "parameters": [{"key": "observation.readout.times", "values": vals}]}
+        if r.random() < 0.4:
+            obs["pipeline_seed"] = r.randrange(1000)
+        pipe = {
+            "photon_collection": [{"name": "illumination", "func": "pyxel.models.photon_collection.illumination",
+                                   "enabled": True, "arguments": {"level": r.randrange(8, 400), "time_scale": 1.0}}],
+            "charge_generation": [{"name": "simple_conversion", "func": "pyxel.models.charge_generation.simple_conversion",
+                                   "enabled": True, "arguments": {"binomial_sampling": False}}],
+            "charge_collection": [{"name": "simple_collection", "func": "pyxel.models.charge_collection.simple_collection",
+                                   "enabled": True}],
+            "charge_measurement": [{"name": "simple_measurement",
+                                    "func": "pyxel.models.charge_measurement.simple_measurement", "enabled": True}],
+            "readout_electronics": [{"name": "simple_adc", "func": "pyxel.models.readout_electronics.simple_adc",
+                                     "enabled": True}],
+        }
+        doc = {"observation": obs, det + "_detector": sec, "pipeline": pipe}
+        cases.append(dict(k="sweeprun", doc=doc, det=det, kind="observation"))
+    return cases
+
+
+def run_sweeps(ctx: Ctx, cases):
+    obs = run_driver(ctx, cases, workers=min(8, max(1, len(cases))))
+    for c, o in zip(cases, obs):
+        if "loaded" not in o:
+            ctx.broken.append(Broken("correspondence", "sweep driver crashed", str(o)[:600], c))
+            continue
+        ctx.count("evaluations")
+        ctx.count("sweep_runs")
+        dask = bool(c["doc"]["observation"].get("with_dask"))
+        ctx.dist("sweep", ("dask" if dask else "sequential") + ("/ran" if o.get("ran") else "/raised"))
+        if not o["loaded"] or not o.get("ran"):
+            ctx.violations.append(Violation(
+                clause="sweep_run_equal", case=c, observed=o, expected="a valid sweep over the readout times loads and runs",
+                what=f"{c['det']}: observation sweeping observation.readout.times does not run: {o.get('exc')}: {o.get('msg')}",
+                sig=dict(clause="sweep_run_equal", aspect="does-not-run", dask=dask)))
+            continue
+        if dask and not o.get("same_points"):
+            ctx.violations.append(Violation(
+                clause="sweep_run_equal", case=c, observed=o,
+                expected="every point of the sweep = an Exposure built in Python with Readout(times=[t], start_time and "
+                         "non_destructive as written in the file)",
+                what=f"{c['det']}: dask sweep over observation.readout.times with readout "
+                     f"{c['doc']['observation']['readout']}: {o.get('diff')}",
+                sig=dict(clause="sweep_run_equal", aspect="point-differs-from-python-built-exposure", dask=dask)))
+        if not o.get("same_built"):
+            ctx.violations.append(Violation(
+                clause="sweep_run_equal", case=c, observed=o,
+                expected="run_mode on the loaded observation = run_mode on the same observation built in Python",
+                what=f"{c['det']}: sweep over observation.readout.times: loaded and Python-built observation differ in "
+                     f"{o.get('diff_built')}",
+                sig=dict(clause="sweep_run_equal", aspect="loaded-differs-from-built", dask=dask)))
+    return obs
+
+
 # ------------------------------------------------------------------------------------------ legs
+
+
+def run_driver(ctx, payloads, workers=8):
+    """core.run_driver; payloads whose worker process was lost (machine load, a timeout) are run once more in small
+    chunks.  An answer of the implementation - a violation included - is never retried."""
+    obs = core.run_driver(ctx, "c12", payloads, workers=workers)
+    lost = [i for i, o in enumerate(obs) if isinstance(o, dict) and "crash" in o]
+    if lost:
+        ctx.count("driver_payloads_retried", len(lost))
+        again = core.run_driver(ctx, "c12", [payloads[i] for i in lost], workers=min(4, len(lost)), chunk=max(1, len(lost) // 16))
+        for i, o in zip(lost, again):
+            obs[i] = o
+    return obs
 
 
 def eval_files(ctx, files, n_evals=2):
@@ -637,7 +1131,7 @@ def eval_files(ctx, files, n_evals=2):
 
 
 def run_guards(ctx: Ctx, cases, tag="g"):
-    obs = core.run_driver(ctx, "c12", cases, workers=8)
+    obs = run_driver(ctx, cases, workers=8)
     ctx.log("guard driver done")
     pairs = []
     for c, o in zip(cases, obs):
@@ -670,7 +1164,7 @@ def run_guards(ctx: Ctx, cases, tag="g"):
 
 
 def run_keys(ctx: Ctx, cases):
-    obs = core.run_driver(ctx, "c12", cases, workers=8)
+    obs = run_driver(ctx, cases, workers=8)
     pairs = []
     for c, o in zip(cases, obs):
         if "loaded" not in o:
@@ -691,8 +1185,9 @@ def run_keys(ctx: Ctx, cases):
 
 
 def run_settings(ctx: Ctx, cases, tag="s"):
-    payloads = [dict(k="settings", doc=to_yaml_doc(c["doc"]), run=c["run"]) for c in cases]
-    obs = core.run_driver(ctx, "c12", payloads, workers=8)
+    payloads = [dict(k="settings", doc=to_yaml_doc(c["doc"]), run=c["run"], derive=c.get("derive"),
+                     sweeps=c.get("sweeps"), files=collect_files(c["doc"])) for c in cases]
+    obs = run_driver(ctx, payloads, workers=8)
     ctx.log("settings driver done")
     pairs = []
     for c, o in zip(cases, obs):
@@ -706,6 +1201,18 @@ def run_settings(ctx: Ctx, cases, tag="s"):
                 sig=dict(clause="valid_document_refused", det=c["det"], kind=c["kind"], exc=o.get("exc"))))
             continue
         pairs.append((c, o))
+        bd = o.get("built_diff") or {}
+        if bd.get("keys") or bd.get("raised"):
+            ctx.violations.append(Violation(
+                clause="loaded_equals_built", case=jcase(c), observed=bd,
+                expected="every setting of the loaded objects = the setting of the same objects built in Python",
+                what=(f"{c['det']}/{c['kind']}: the Python-built objects cannot be built: {bd.get('raised')}: {bd.get('msg')}"
+                      if bd.get("raised") else
+                      f"{c['det']}/{c['kind']}: settings {bd['keys'][:4]} of the loaded objects differ from the same objects "
+                      f"built in Python: loaded {json.dumps(bd.get('loaded'), default=str)[:200]}, built "
+                      f"{json.dumps(bd.get('built'), default=str)[:200]}"),
+                sig=dict(clause="loaded_equals_built",
+                         keys=sorted({key_class(k) for k in bd.get("keys", [])})[:3] or ["<raised>"])))
     per = 6
     files = {f"{tag}_{k // per:03d}": emit_settings_file(pairs[k:k + per]) for k in range(0, len(pairs), per)}
     ev = eval_files(ctx, files)
@@ -724,6 +1231,9 @@ def run_settings(ctx: Ctx, cases, tag="s"):
     for c, o in pairs:
         ctx.count("evaluations", len(expected_keys(c)))
         ctx.count("documents")
+        written = {key_class(k) for k, _ in flatten(c)[0]}
+        for kc in written:
+            ctx.dist("setting_written_in_documents", kc)
         ctx.dist("settings_det_x_mode", f"{c['det']}/{c['kind']}")
         if c["run"]:
             ctx.count("runs_compared")
@@ -740,7 +1250,8 @@ def run_settings(ctx: Ctx, cases, tag="s"):
 
 def jcase(c):
     return dict(k="settings", doc=to_yaml_doc(c["doc"]), run=c["run"], det=c["det"], kind=c["kind"],
-                exprs=collect_exprs(c["doc"]))
+                exprs=collect_exprs(c["doc"]), derive=c.get("derive"), sweeps=c.get("sweeps"),
+                files=collect_files(c["doc"]))
 
 
 def collect_exprs(doc, path=""):
@@ -756,14 +1267,17 @@ def collect_exprs(doc, path=""):
     return out
 
 
-def restore_exprs(doc, exprs, path=""):
+def restore_exprs(doc, exprs, path="", files=None):
+    files = files or {}
     if path in exprs:
         a, b, s = exprs[path]
         return Expr(Fraction(a), Fraction(b), Fraction(s))
+    if path.endswith("/times_from_file") and isinstance(doc, str) and doc in files:
+        return TimesFile(files[doc], doc)
     if isinstance(doc, dict):
-        return {k: restore_exprs(v, exprs, f"{path}/{k}") for k, v in doc.items()}
+        return {k: restore_exprs(v, exprs, f"{path}/{k}", files) for k, v in doc.items()}
     if isinstance(doc, list):
-        return [restore_exprs(v, exprs, f"{path}/{i}") for i, v in enumerate(doc)]
+        return [restore_exprs(v, exprs, f"{path}/{i}", files) for i, v in enumerate(doc)]
     return doc
 
 
@@ -784,10 +1298,15 @@ def run(ctx: Ctx):
 
     ctx.trusted += TRUSTED
     ctx.assumptions += [
-        "values range over None, finite numbers (as exact rationals), NaN and sequences by length; +-inf, bool, "
-        "strings and numpy arrays as field values are outside the quantifier",
+        "values range over None, finite numbers (as exact rationals), NaN, +-inf and sequences by length, carried by a "
+        "python int/float or by a numpy scalar (int64/int32/float32: not an instance of int | float); bool, strings, "
+        "numpy arrays and numpy +-inf as field values are outside the quantifier",
+        "+-inf is judged as an extended real: inside exactly the documented intervals that have no bound on that side",
+        "for a number carried by a numpy scalar the statement is one-directional (an out-of-range value is refused); a "
+        "guard may be type-strict about an in-range one (Environment.wavelength setter)",
         "integrality of row / col / adc_bit_resolution is not part of the documented range that is checked",
         "None is 'not specified': the constructor must take it iff the field is optional; no claim for setters",
+        "row / col = +inf is not driven through YAML (the guard takes it as a number > 0, the frame allocation refuses it)",
         "documents use dyadic numbers so that every float operation of the loader is exact",
     ]
     gen = {}
@@ -822,15 +1341,26 @@ def run(ctx: Ctx):
     ctx.log("settings leg done")
     for c, o, keys in sbad:
         ctx.violations.append(settings_violation(c, o, keys))
+    dm, dv = run_derived(ctx, sp)
+    for c, row in dv:
+        ctx.violations.append(derive_violation(c, row))
+    for c, row in dm:
+        ctx.broken.append(Broken("correspondence", "regenerated Readout.replace vs implementation",
+                                 f"replace({row[0]['changes']}) on {dict(row[1])} gives {row[3]}; the translated "
+                                 f"replace() says otherwise", dict(case=jcase(c), op=row[0], observed=row[4])))
+    sw = run_sweeps(ctx, gen_sweep_cases(ctx, ctx.budget(4, 16)))
+    ctx.log("derived-readout and sweep legs done")
 
     seen = {json.dumps([c["cls"], c["field"], c["path"], c["x"]], sort_keys=True) for c, _ in gp
             if c["x"]["t"] != "none"}
     ctx.cov["distinct_nontrivial"] = len(seen) + len(kp) + len(sp)
-    ctx.cov["rule"] = ("guard cases: distinct (field, path, value) with a value other than None (boundaries +-1 ulp, +-1, "
-                       "x2, x10, 0, -0, subnormal, 1e308, NaN, integers around the bounds, random; sequences of length "
-                       "0..4) for all 19 documented fields x 4 paths; key cases: all 128 subsets of the 3 mode and 4 "
-                       "detector keys; settings: distinct generated documents (4 detector types x 3 modes, optional keys "
-                       "present/absent, range expressions, probes and real models in the pipeline)")
+    ctx.cov["rule"] = ("guard cases: distinct (field, path, value) with a value other than None (corpus of the formerly "
+                       "failing inputs first; boundaries +-1 ulp, +-1, x2, x10, 0, -0, subnormal, 1e308, NaN, +-inf, integers "
+                       "around the bounds, random; the same numbers carried by numpy int64/int32/float32/float64 scalars; "
+                       "sequences of length 0..4) for all 19 documented fields x 4 paths; key cases: all 128 subsets of "
+                       "the 3 mode and 4 detector keys; settings: distinct generated documents (4 detector types x 3 modes, "
+                       "optional keys present/absent, range expressions, times from a file, outputs, algorithm parameters, "
+                       "probes and real models in the pipeline), each with 8 derived readouts and 2 sweep points")
     ctx.cov["traces_validated_against_impl"] = len(gp) + len(kp) + len(sp)
     ctx.cov["disagreements_checked"] = len(gm) + len(km)
     ctx.cov["exhaustive"] = {"top_level_key_subsets": 128}
@@ -862,7 +1392,12 @@ def search(ctx: Ctx):
     sp, sbad = run_settings(ctx, scases, tag="ss")
     for c, o, keys in sbad:
         ctx.violations.append(settings_violation(c, o, keys))
-    ctx.cov["search_cases"] = len(gp) + len(sp)
+    dm, dv = run_derived(ctx, sp, tag="sd")
+    for c, row in dv:
+        ctx.violations.append(derive_violation(c, row))
+    sw = gen_sweep_cases(ctx, 8)
+    run_sweeps(ctx, sw)
+    ctx.cov["search_cases"] = len(gp) + len(sp) + len(sw)
 
 
 def replay(ctx: Ctx, rp: dict) -> int:
@@ -898,42 +1433,64 @@ def replay(ctx: Ctx, rp: dict) -> int:
         print("implementation now returns:", o)
         ok, ev, se = core.coq_eval(ctx, "replay", emit_keys_file([(case, o)]))
         bad = ok and core.parse_int_list(ev[1]) != []
+    elif k == "sweeprun":
+        o = core.run_driver(ctx, "c12", [case], workers=1)[0]
+        print("implementation now returns:", json.dumps(o)[:1500])
+        dask = bool(case["doc"]["observation"].get("with_dask"))
+        bad = not (o.get("loaded") and o.get("ran") and o.get("same_built") and (o.get("same_points") or not dask))
     else:
-        c = dict(doc=restore_exprs(case["doc"], case.get("exprs", {})), run=case.get("run", False),
-                 det=case["det"], kind=case["kind"])
-        o = core.run_driver(ctx, "c12", [dict(k="settings", doc=case["doc"], run=c["run"])], workers=1)[0]
+        c = dict(doc=restore_exprs(case["doc"], case.get("exprs", {}), files=case.get("files")),
+                 run=case.get("run", False), det=case["det"], kind=case["kind"], derive=case.get("derive"),
+                 sweeps=case.get("sweeps"))
+        o = core.run_driver(ctx, "c12", [dict(k="settings", doc=case["doc"], run=c["run"], derive=c["derive"],
+                                              sweeps=c["sweeps"], files=case.get("files"))], workers=1)[0]
         print("implementation now returns:", json.dumps(o)[:1500])
         if not o.get("loaded"):
             bad = True
+        elif rp.get("clause") == "derived_keeps":
+            rows = derive_rows(c, o) + sweep_rows(c, o)
+            ok, ev, se = core.coq_eval(ctx, "replay", emit_derive_file(rows))
+            idx = core.parse_int_list(ev[1]) if ok else []
+            bad = ok and idx != []
+            for i in idx:
+                print("derived readout that breaks the specification:", derive_violation(c, rows[i]).what)
         else:
             ok, ev, se = core.coq_eval(ctx, "replay", emit_settings_file([(c, o)]))
             bad = (ok and core.parse_int_list(ev[0]) != []) or (c["run"] and not (o.get("run") or {}).get("same"))
             if ok and core.parse_int_list(ev[0]) != []:
                 keys = expected_keys(c)
                 print("settings that differ:", [keys[p] for p in parse_details(ev[1])[0] if 0 <= p < len(keys)])
-    print("specification (evaluated in Coq):", "VIOLATED" if bad else "holds")
+    how = "results compared by the driver" if k == "sweeprun" else "evaluated in Coq"
+    print(f"specification ({how}):", "VIOLATED" if bad else "holds")
     return 1 if bad else 0
 
 
 META = dict(
     level_text=(
-        "Coq theorems over guard tables regenerated from the source on every run: for every documented field of "
-        "Geometry(+subclasses)/Characteristics/Environment/APDCharacteristics, constructor guard and setter guard accept "
-        "exactly the documented range for ALL rationals, NaN and all sequence lengths (sound reflective checker over "
-        "half-lines), except on an explicit list of (field, side, value class) triples each of which is PROVED to be a real "
-        "disagreement (full statement refuted: unchecked adc_bit_resolution / adc_voltage_range setters, unchecked "
-        "pixel_scale constructor, truthiness preconditions, NaN slipping through `x < lo or x > hi`); the exactly-one "
-        "checks of the loader accept a key set iff it has exactly one mode and one detector (all key sets); the "
-        "document->settings map is proved lossless for a structural MODEL of the loader. That the code behaves like the "
-        "tables/model is established by correspondence (= testing): every field x 4 paths (constructor, YAML, attribute, "
-        "Processor.set) on boundary/out-of-range/NaN/None values, all 128 subsets of mode/detector keys through "
-        "pyxel.load, generated documents over 4 detectors x 3 modes read back leaf by leaf and compared inside Coq, and "
-        "run_mode on YAML-built vs Python-built objects for a sample."),
+        "Coq theorems over tables regenerated from the source on every run. REFUSAL, at full strength and without exception "
+        "list (C12_same_limits): for every documented field of Geometry(+subclasses)/Characteristics/Environment/"
+        "APDCharacteristics, the constructor guard and the setter guard accept a value carried by a python int/float "
+        "exactly when it is inside the documented range - for ALL rationals, NaN, +-inf and all sequence lengths - and "
+        "refuse every out-of-range number whatever carries it (numpy.int64/int32/float32 scalars included); decided by a "
+        "reflective checker over half-lines proved sound for all inputs (the 28 defects of the unrepaired tree that refuted "
+        "this statement were repaired by fix: commits; a regression makes the theorem fail and is reported with a concrete "
+        "input). EXACTLY-ONE: the regenerated count checks of the loader accept a key set iff it has exactly one mode and one "
+        "detector (all key sets). SETTINGS: the document->settings map is lossless and derived objects "
+        "(Readout.replace, regenerated list of carried settings; setters; sweep points) keep every setting that was not "
+        "changed - theorems about a structural MODEL. That the code behaves like the tables/model is established by "
+        "correspondence (= testing): every field x 4 paths (constructor, YAML, attribute, Processor.set) on boundary/"
+        "out-of-range/NaN/inf/None/numpy-carried values, all 128 subsets of mode/detector keys through pyxel.load, generated "
+        "documents over 4 detectors x 3 modes (readout incl. times_from_file, outputs, parameters, every Algorithm parameter, "
+        "fitness arguments ...) read back leaf by leaf and compared inside Coq and with the same objects built in Python, "
+        "derived readouts / sweep points compared inside Coq, run_mode on YAML-built vs Python-built objects, and dask "
+        "sweeps over observation.readout.times against one Python-built Exposure per point."),
     level_note=(
-        "Trusted: Coq kernel + vm_compute; translator/c12.py; the literal table of documented ranges and of defaults; "
-        "the correspondence harness and driver; PyYAML; numpy.arange on dyadic inputs. The loading half (settings "
-        "preserved, run equality) is testing of pyxel.load against a proved-lossless model, not a proof about the code. "
-        "The checker is sound but incomplete (a guard written as a union of intervals would be reported as unchecked)."),
+        "Trusted: Coq kernel + vm_compute; translator/c12.py; the literal table of documented ranges, of readout settings and "
+        "of defaults; the correspondence harness and driver; PyYAML; numpy.arange on dyadic inputs. The loading half (settings "
+        "preserved, derived objects, run equality) is testing of pyxel.load / Readout.replace / Processor.replace against a "
+        "proved model, not a proof about the code. The checker is sound but incomplete (a guard written as a union of "
+        "intervals would be reported as unchecked). Integrality of row/col/adc_bit_resolution is not part of the checked "
+        "range; a guard may be type-strict about in-range numpy scalars."),
     technique="Coq proof over regenerated guard tables (reflective interval checker) + in-Coq correspondence/spec evaluation",
     design_ref="DESIGN.md section 6, C12",
 )
